@@ -4,6 +4,7 @@
 //! Fixed results are printed as hex, boxed results as `<nlimbs>:<hex>`.
 use crate::util::*;
 use crypto_bigint::modular::{BoxedMontyForm, BoxedMontyParams, MontyForm, MontyParams};
+#[cfg(crypto_bigint_verif)]
 use crypto_bigint::verif_hooks as hooks;
 use crypto_bigint::{AddMod, BoxedUint, MulMod, NegMod, NonZero, Odd, SubMod, Uint};
 
@@ -139,6 +140,7 @@ fn boxed_op(op: &str, n: usize, a: &[&str]) -> Option<String> {
 //   c07.hook.mac_by_limb n a b c carry             uint::mul_mod::mac_by_limb          -> hex carry
 //   c07.hook.div_by_2 n a p                        modular::div_by_2::div_by_2 (p odd) -> hex
 //   c07.hook.bsub_mod_with_carry / bmac_by_limb / bdiv_by_2 / bdiv_by_2_assign: the BoxedUint twins -> n:hex …
+#[cfg(crypto_bigint_verif)]
 fn hook_fixed<const N: usize>(op: &str, a: &[&str]) -> Option<String> {
     Some(match (op, a) {
         ("c07.hook.sub_mod_with_carry", [x, c, y, p]) => uhex(&hooks::uint_sub_mod_with_carry(
@@ -160,6 +162,7 @@ fn hook_fixed<const N: usize>(op: &str, a: &[&str]) -> Option<String> {
     })
 }
 
+#[cfg(crypto_bigint_verif)]
 fn hook_boxed(op: &str, n: usize, a: &[&str]) -> Option<String> {
     if n == 0 || n > 64 {
         return Some("unsupported-width".to_string());
@@ -206,4 +209,16 @@ pub fn dispatch(op: &str, a: &[&str]) -> Option<String> {
     } else {
         None
     }
+}
+
+// ---- the same entry points when the crate is built WITHOUT `--cfg crypto_bigint_verif` (fallback build of the runner when the
+// hook forwarders of /repo no longer compile, e.g. after a refactor of an internal signature): hook operations answer
+// `hook-unavailable` and are skipped by the runner; the public operations still run.
+#[cfg(not(crypto_bigint_verif))]
+fn hook_fixed<const N: usize>(_op: &str, _a: &[&str]) -> Option<String> {
+    Some(crate::util::HOOK_UNAVAILABLE.to_string())
+}
+#[cfg(not(crypto_bigint_verif))]
+fn hook_boxed(_op: &str, _n: usize, _a: &[&str]) -> Option<String> {
+    Some(crate::util::HOOK_UNAVAILABLE.to_string())
 }
